@@ -6,6 +6,7 @@ import (
 	"encoding/hex"
 	"fmt"
 	"reflect"
+	"runtime"
 	"sort"
 	"strconv"
 
@@ -199,7 +200,7 @@ const c08Probe = `{namespace probe}
 // memBundle is an in-memory soymsg.Bundle with the identity translation of every flat message.
 type memBundle struct{ msgs map[uint64]*soymsg.Message }
 
-func (b memBundle) Locale() string                     { return "xx" }
+func (b memBundle) Locale() string                    { return "xx" }
 func (b memBundle) Message(id uint64) *soymsg.Message { return b.msgs[id] }
 func (b memBundle) PluralCase(n int) int {
 	if n == 1 {
@@ -373,7 +374,11 @@ func directC08(g *G, rep *Report) {
 				var buf bytes.Buffer
 				cls := safely(func() error { return tofu.NewRenderer("probe.keys").Execute(&buf, kd) })
 				var errTxt string
-				safely(func() error { e := tofu.NewRenderer("probe.keys").Execute(&bytes.Buffer{}, kd); errTxt = errText(e); return e })
+				safely(func() error {
+					e := tofu.NewRenderer("probe.keys").Execute(&bytes.Buffer{}, kd)
+					errTxt = errText(e)
+					return e
+				})
 				out := cls + ":" + buf.String() + ":" + errTxt
 				rep.Evaluations++
 				if k == 0 {
@@ -384,6 +389,33 @@ func directC08(g *G, rep *Report) {
 					break
 				}
 			}
+		}
+		// a render that FAILS inside a content block, directly followed by the same template on good data, forty times in a
+		// row on one OS thread: whatever a failing render leaves behind for "the next one" (a recycled buffer, a cached
+		// frame) is picked up here with near certainty, also on a busy machine
+		{
+			good := toData(map[string]interface{}{"u": map[string]interface{}{"name": "Ann"}, "visits": int64(3)})
+			bad := toData(map[string]interface{}{"u": "not-a-map", "visits": int64(3)})
+			runtime.LockOSThread()
+			var firstOut string
+			for k := 0; k < 40; k++ {
+				// (every other pair without the failure in front: if the failure leaves something behind, the two kinds differ)
+				if k%2 == 0 {
+					safely(func() error { return tofu.NewRenderer("probe.blk").Execute(&bytes.Buffer{}, bad) })
+				}
+				var buf bytes.Buffer
+				cls := safely(func() error { return tofu.NewRenderer("probe.blk").Execute(&buf, good) })
+				out := cls + ":" + buf.String()
+				rep.Evaluations++
+				if k == 0 {
+					firstOut = out
+				} else if out != firstOut {
+					rep.Violations = append(rep.Violations, Viol{Key: "c08-history-dependent:after-failure:" + cfg, What: "the same template with the same data rendered differently directly after a render that failed inside a content block",
+						Req: req("c08hist", encSources(fs)), Note: fmt.Sprintf("pair %d of probe.blk", k), Impl: out, Want: firstOut})
+					break
+				}
+			}
+			runtime.UnlockOSThread()
 		}
 		if recur {
 			rep.DistinctNT++
